@@ -57,7 +57,7 @@ def gen_plan(rng, tier, focus):
             pool = [c for c in cols if len(vals[c]) <= 40] or cols
             gb = [rng.choice(pool) for _ in range(k)]
             if rng.random() < 0.07:
-                gb.insert(rng.randrange(len(gb) + 1), b"nosuchcol")
+                gb.insert(rng.randrange(len(gb) + 1), rng.choice([b"nosuchcol", b"", b"A"]))
             return gb
         for e in fixed:
             for w in writers:
